@@ -41,9 +41,10 @@ S = Suite(
     bound="alphabet of 6 solves (16x12 and 24x20 sources, footprint/dispersion, "
           "single/double, modes (16,16)/(32,24)/(24,20)); quick: all sequences of length "
           "<= 2 over threads {1,4} x reset {no,yes}; thorough: length <= 3 over {1,4} and "
-          "length <= 2 over {1,2,4,8}; fresh-interpreter runs at every thread setting; 12 "
-          "one-argument variants (halo, domain, wind, z, background, measurement point, level, "
-          "modes) of a dispersion and a footprint solve, run before and after their base solve",
+          "length <= 2 over {1,2,4,8}; fresh-interpreter runs at every thread setting; 27 "
+          "one-argument variants (halo, domain, wind, z, background, measurement point, level, level order, "
+          "modes, ONE profile component u/v/Kx/Ky/Kz scaled, source values, analytic flag, footprint flag, "
+          "precision) of a dispersion and a footprint solve, run before and after their base solve",
     rule="array_equal for equal (solve, threads) inside one process; 1e-12 of the field "
          "maximum against the fresh interpreter and across thread settings; 1e-5 of the "
          "field maximum single vs double",
@@ -94,6 +95,20 @@ _SOLVES.update({
     "A-fp-s/wind": ("Awind", True, "single", (16, 16), [2, 6], (55.0, 30.0), None, 0.0),
     "A-fp-s/meas": ("A", True, "single", (16, 16), [2, 6], (40.0, 22.5), None, 0.0),
 })
+# one COMPONENT of the profile tuple (u, v, Kx, Ky, Kz) scaled with everything else -- including the other
+# diffusivities, which MOST returns as one shared array -- left equal; other source values; the mode flags
+_MODS = {}
+for _b in ("A-disp-d", "A-fp-s"):
+    for _k, (_i, _f) in {"u": (0, 1.25), "v": (1, -0.5), "Kx": (2, 1.7), "Ky": (3, 0.6), "Kz": (4, 1.3)}.items():
+        _SOLVES["%s/%s" % (_b, _k)] = _SOLVES[_b]
+        _MODS["%s/%s" % (_b, _k)] = {"scale": (_i, _f)}
+_SOLVES["A-disp-d/src"] = _SOLVES["A-disp-d"]
+_MODS["A-disp-d/src"] = {"srcseed": 977}
+_SOLVES["A-disp-d/analytic"] = _SOLVES["A-disp-d"]
+_MODS["A-disp-d/analytic"] = {"analytic": True}
+_SOLVES["A-disp-d/footprint"] = ("A", True, "double", (16, 16), 6, (0.0, 0.0), None, 0.0)
+_SOLVES["A-fp-s/levels"] = ("A", True, "single", (16, 16), [6, 2], (55.0, 30.0), None, 0.0)
+_SOLVES["A-fp-s/precision"] = ("A", True, "double", (16, 16), [2, 6], (55.0, 30.0), None, 0.0)
 VARIANTS = {b: [n for n in _SOLVES if n.startswith(b + "/")] for b in ("A-disp-d", "A-fp-s")}
 ALPHABET = ["A-disp-d", "A-disp-s", "A-fp-s", "B-fp-d", "B-fp-s", "B-disp-d"]
 _TWIN = {"A-disp-s": "A-disp-d", "A-fp-s": "A-fp-d", "B-fp-s": "B-fp-d",
@@ -104,7 +119,8 @@ def build(name):
     """Keyword arguments of the solver call named `name` (fresh arrays at every call)."""
     shp, fp, prec, modes, levels, meas_pt, halo, bg = _SOLVES[name]
     s = _SHAPES[shp]
-    rng = np.random.default_rng(s["seed"])
+    mod = _MODS.get(name, {})
+    rng = np.random.default_rng(mod.get("srcseed", s["seed"]))
     q0 = rng.random((s["ny"], s["nx"]))
     q0[rng.random((s["ny"], s["nx"])) < 0.3] = 0.0
     z, prof = default_profiles(n=s["nz"], zm=s["zm"], wind=s["wind"], ustar=0.35,
@@ -113,9 +129,15 @@ def build(name):
         levels = np.array([int(t) for t in levels[3:].split(",")])
     elif isinstance(levels, list):
         levels = list(levels)
-    return dict(srf_flx=q0, z=z, profiles=prof, domain=s["domain"], levels=levels,
-                modes=modes, meas_pt=meas_pt, srf_bg_conc=bg, footprint=fp,
-                halo=halo, precision=prec)
+    if "scale" in mod:
+        i, f = mod["scale"]
+        prof = tuple((np.array(a, copy=True) * f if k == i else a) for k, a in enumerate(prof))
+    kw = dict(srf_flx=q0, z=z, profiles=prof, domain=s["domain"], levels=levels,
+              modes=modes, meas_pt=meas_pt, srf_bg_conc=bg, footprint=fp,
+              halo=halo, precision=prec)
+    if mod.get("analytic"):
+        kw["analytic"] = True
+    return kw
 
 
 def _snapshot(kw):
@@ -343,6 +365,14 @@ def _available(threads):
 
 
 def generate(tier, rng):
+    if os.environ.get("C12_FOCUS") == "twins":
+        # witness search for a refuted purity frame obligation (any solver property): near-twin pairs, both orders, one thread
+        prefetch([(v, 1) for b in VARIANTS for v in VARIANTS[b]] + [(b, 1) for b in VARIANTS])
+        for base, variants in VARIANTS.items():
+            for v in variants:
+                yield "history", dict(seq=[[v, 1, False], [base, 1, False]])
+                yield "history", dict(seq=[[base, 1, False], [v, 1, False]])
+        return
     thorough = tier == "thorough"
     threads = _available([1, 2, 4, 8] if thorough else [1, 4])
     prefetch([(s, 1) for s in _SOLVES] + [(s, t) for s in ALPHABET for t in threads if t != 1])
